@@ -1450,3 +1450,40 @@ Proof.
   rewrite Hs in Hjb. destruct (slice_key_facts sh q n Hq) as [_ [_ [_ [_ H5]]]].
   now destruct (H5 j Hjb Hn').
 Qed.
+
+(* ================================================================ the merged dataset *)
+Lemma coords_union_sound l : forall seen c, In c (coords_union seen l) -> In c l /\ ~ In (co_name c) seen.
+Proof.
+  induction l as [|c0 l IH]; intros seen c H; cbn in H; [destruct H|].
+  destruct (mem_str (co_name c0) seen) eqn:E.
+  - destruct (IH _ _ H) as [H1 H2]. split; [now right|assumption].
+  - destruct H as [<-|H].
+    + split; [now left|now apply mem_str_false].
+    + destruct (IH _ _ H) as [H1 H2]. split; [now right|]. intros Hin. apply H2. now right.
+Qed.
+
+Lemma coords_union_complete l : forall seen c, In c l -> ~ In (co_name c) seen ->
+  exists c', In c' (coords_union seen l) /\ co_name c' = co_name c.
+Proof.
+  induction l as [|c0 l IH]; intros seen c Hin Hs; [destruct Hin|]. cbn.
+  destruct (mem_str (co_name c0) seen) eqn:E.
+  - destruct Hin as [->|Hin]; [apply mem_str_In in E; contradiction|]. now apply IH.
+  - destruct Hin as [->|Hin]; [exists c; split; [now left|reflexivity]|].
+    destruct (list_eq_dec ascii_dec (co_name c) (co_name c0)) as [En|Hne].
+    + exists c0. split; [now left|now symmetry].
+    + destruct (IH (co_name c0 :: seen) c Hin) as [c' [H1 H2]].
+      * intros [H|H]; [now apply Hne|contradiction].
+      * exists c'. split; [now right|assumption].
+Qed.
+
+(* every coordinate of a merged DataArray is (by name) a coordinate of the Dataset, and the Dataset has
+   no other coordinates (xr.merge(compat="override"): the first array that brings a name wins) *)
+Theorem ds_coords_union ds :
+  (forall a c, In a (ds_arrays ds) -> In c (da_coords a) ->
+     exists c', In c' (ds_coords ds) /\ co_name c' = co_name c)
+  /\ (forall c', In c' (ds_coords ds) -> exists a, In a (ds_arrays ds) /\ In c' (da_coords a)).
+Proof.
+  unfold ds_coords. split.
+  - intros a c Ha Hc. apply coords_union_complete; [|intros []]. apply in_flat_map. now exists a.
+  - intros c' H. apply coords_union_sound in H as [H _]. now apply in_flat_map in H.
+Qed.
